@@ -178,6 +178,14 @@ class MemPath:
                 self.FS.dirs.append(self.parts[:i])
         self.FS.dirs.append(self.parts)
 
+    def unlink(self, missing_ok: bool = False) -> None:
+        entry = self.FS.find(self.parts)
+        if entry is None:
+            if not missing_ok:
+                raise FileNotFoundError(str(self.parts))
+            return
+        self.FS.files = [f for f in self.FS.files if f is not entry]
+
     def glob(self, pattern: Any) -> Any:
         if len(pattern) == 0:
             raise ValueError("Unacceptable pattern: ''")
